@@ -36,6 +36,31 @@ pub trait MX: MemBuilder + 'static {
     fn with_capacity<T: Elem + SatisfyTraits<Tr>, Tr: ?Sized + Trait>(_cap: usize) -> AnyVec<Tr, Self> { unreachable!("not sizeable") }
     fn cap_call<Tr: ?Sized + Trait>(_v: &mut AnyVec<Tr, Self>, _c: CapCall, _n: usize) { unreachable!("not resizable") }
     fn cap_call_typed<T: 'static>(_v: &mut AnyVecTyped<'_, T, Self>, _c: CapCall, _n: usize) { unreachable!("not resizable") }
+    /// C17: decompose into raw parts and rebuild (variants: see exec_views)
+    fn raw_roundtrip<Tr: ?Sized + Trait>(_v: AnyVec<Tr, Self>, _variant: u8, _want: &crate::exec_views::PartsWant, _fails: &mut Vec<crate::types::Fail>) -> AnyVec<Tr, Self> { unreachable!("no raw parts") }
+}
+
+macro_rules! rawparts_impl {
+    () => {
+        const RAWPARTS: bool = true;
+        fn raw_roundtrip<Tr: ?Sized + Trait>(v: AnyVec<Tr, Self>, variant: u8, want: &crate::exec_views::PartsWant, fails: &mut Vec<crate::types::Fail>) -> AnyVec<Tr, Self> {
+            use crate::exec_views::PartsSeen;
+            let see = |p: &any_vec::RawParts<Self>| PartsSeen { len: p.len, cap: p.capacity, layout: p.element_layout, tid: p.element_typeid, has_drop: p.element_drop.is_some() };
+            let p = v.into_raw_parts();
+            see(&p).check(want, "into_raw_parts", fails);
+            match variant {
+                0 => unsafe { AnyVec::from_raw_parts(p) },
+                1 => { let v2: AnyVec<Tr, Self> = unsafe { AnyVec::from_raw_parts(p) }; let p2 = v2.into_raw_parts(); see(&p2).check(want, "second into_raw_parts", fails); unsafe { AnyVec::from_raw_parts(p2) } }
+                _ => {
+                    let c = p.clone();
+                    let n0 = fails.len();
+                    see(&c).check(want, "RawParts::clone", fails);
+                    // rebuild from the clone only when it describes the same vector (never build a vector from wrong parts)
+                    if variant == 2 && fails.len() == n0 { unsafe { AnyVec::from_raw_parts(c) } } else { unsafe { AnyVec::from_raw_parts(p) } }
+                }
+            }
+        }
+    };
 }
 
 macro_rules! resizable_impl {
@@ -69,7 +94,7 @@ macro_rules! resizable_impl {
 #[cfg(feature = "alloc")]
 impl MX for any_vec::mem::Heap {
     const KIND: BK = BK::Heap;
-    const RAWPARTS: bool = true;
+    rawparts_impl!();
     type Aux = any_vec::mem::Heap;
     fn make() -> Self { any_vec::mem::Heap }
     fn name() -> String { "Heap".into() }
@@ -114,6 +139,7 @@ impl MX for any_vec::mem::Empty {
     type Aux = DefaultAux;
     fn make() -> Self { any_vec::mem::Empty }
     fn name() -> String { "Empty".into() }
+    rawparts_impl!();
     fn fixed_cap(_size: usize) -> Option<usize> { Some(0) }
 }
 
